@@ -76,7 +76,7 @@ type case = {
   hashf : EI.src -> BinNums.coq_N;
 }
 
-let is_src_op = function "a" | "d" | "f" | "e" | "o" | "oc" | "z" | "xe" -> true | _ -> false
+let is_src_op = function "a" | "d" | "f" | "e" | "o" | "oc" | "z" | "xe" | "tz" -> true | _ -> false
 
 let parse_case (input : string) : case =
   let toks = L.map S.trim (S.split_on_char ';' input) in
@@ -230,7 +230,15 @@ let spec input obs =
                 end else begin
                   (* empty database *)
                   if res = "ok" then begin
-                    if not (EI.table_matches_file c.hashf t' (coq_file !fs) c.ckh c.ckhash) then fail "accepted-table-does-not-match-file"
+                    (* a file with a malformed row (wrong number of fields, or a field that is not a base-10 numeral of the
+                       column's range / a hash of at most 64 hex digits, or unreadable for the csv reader) must be refused *)
+                    let malformed = (match snd !fs with
+                        | hdr :: recs when fst !fs <> Nofile ->
+                          let n = nat_of_int (L.length hdr) in
+                          L.exists (fun r -> not (EI.good_record n (L.map cstr r))) recs
+                        | _ -> false) in
+                    if malformed then fail "import-accepted-malformed-row"
+                    else if not (EI.table_matches_file c.hashf t' (coq_file !fs) c.ckh c.ckhash) then fail "accepted-table-does-not-match-file"
                     else if not !edited && t' <> expected_rt then fail "roundtrip-mismatch"
                   end else begin
                     if not !edited && ck_good then fail "roundtrip-refused";
